@@ -46,6 +46,15 @@ SHAPES = [
      'assumption[formula_0_n]: forall X (q(X) -> X = X). spec[n]: forall X (p(X) <-> q(X)).', 'p(X) :- q(X).', 'input: q/1. output: p/1.'),
     ('formula-name-equals-declaration-name', 'external-spec', 'spec[predicate_0]: forall X (p(X) -> q(X)). '
      'spec[type_symbol_0]: p(a) -> q(a). spec[symbol_order_0]: p(b) -> q(b).', 'p(X) :- q(X).', 'input: q/1. output: p/1.'),
+    ('outline-with-renamed-symbol', 'external-outline', 'q :- p(X), X != q. r(X) :- p(X), not q.', 'q :- p(X), q != X. r(X) :- p(X), not q.',
+     'input: p/1. output: r/1. output: q/0.',
+     'lemma(forward)[l1]: forall X (p(X) and X != q -> q). inductive-lemma[il]: forall N$i (N$i >= 0 -> (p(N$i) -> N$i != q)). '
+     'definition[d1]: forall X (dd(X) <-> p(X) and X = q). lemma(backward): forall X (dd(X) -> X = q).'),
+    ('outline-plain', 'external-outline', 'q(X) :- p(X), X != a.', 'q(X) :- p(X), a != X.', 'input: p/1. output: q/1.',
+     'lemma: forall X (q(X) -> p(X)). inductive-lemma: forall N$i (N$i >= 0 -> (q(N$i) -> N$i != a)). lemma(backward): exists X (p(X)) or not exists Y q(Y).'),
+    ('chain-under-quantifier-in-spec', 'external-spec', 'spec: forall X (p(X) -> exists N$i (1 <= N$i <= 3 and X = N$i)). '
+     'assumption: exists N$i (0 <= N$i < 5). spec: forall X (q(X) <-> exists Y$i (X = Y$i and 1 <= Y$i <= 3) or p(X)).',
+     'q(X) :- p(X). q(1..3). :- p(X), X < 1. :- p(X), X > 3. :- p(X), X != 1, X != 2, X != 3.', 'input: p/1. output: q/1.'),
     ('keyword-like-names', 'strong', 'tff(axiom) :- type(conjecture).', 'tff(axiom) :- type(conjecture), not fof.', None),
     ('uppercase-in-symbols', 'strong', 'p(aB_c9) :- q(zZ).', 'p(aB_c9) :- q(zZ), q(zZ).', None),
     ('many-symbols-order', 'strong', 'p(b, a, c, ab, aa, a0, a_, aB).', 'p(b, a, c, ab, aa, a0, a_, aB) :- not q.', None),
@@ -108,7 +117,9 @@ def classify(err, items):
             if it['role'] == 'type' and it['body'][1] == m.group(1):
                 decls.setdefault(m.group(1), []).append(kind_of_type(it['body'][2]))
         kinds = sorted(set(re.sub(r'/\d+', '/n', k) if False else k for k in decls.get(m.group(1), [])))
-        gen = sorted(set(re.sub(r'predicate/\d+', 'predicate', k) for k in kinds))
+        gen = sorted(set('predicate0' if k == 'predicate/0' else re.sub(r'predicate/\d+', 'predicate', k) for k in kinds))
+        if all(g.startswith('predicate') for g in gen):
+            return 'two-types:predicate-arities'
         if gen == ['predicate']:
             return 'two-types:predicate-arities'
         return 'two-types:' + '+'.join(gen)
@@ -160,7 +171,9 @@ def check_problem_text(name, text_):
 
 def check_item(item):
     b = bridge_mod.get()
-    name, kind, left, right, ug = item['shape']
+    shape = item['shape']
+    name, kind, left, right, ug = shape[:5]
+    outline = shape[5] if len(shape) > 5 else ''
     out = []
     configs = [('universal', 'sequential', True, True), ('universal', 'independent', False, False)]
     seen = set()
@@ -171,7 +184,8 @@ def check_item(item):
                 resp = b.call(*req, timeout=120)
                 payload = resp[0]
             else:
-                req, resp = run_task(b, (name, 'program' if kind == 'external' else 'spec', left, right, ug), direction, dec, simp, eqb)
+                req, resp = run_task(b, (name, 'spec' if kind == 'external-spec' else 'program', left, right, ug), direction, dec, simp, eqb,
+                                     outline=outline)
                 if resp[0][0] == 'refused':
                     out.append({'family': item['family'], 'key': item['label'] + '#refused', 'input': item['label'], 'verdict': 'skipped',
                                 'detail': 'task refused: %s' % str(resp[0][1])[:200]})
